@@ -239,6 +239,11 @@ func (p *c20) Init(tier string, seed int64) {
 	p.units = append(p.units, c20unit{name: "extends-use", nodes: func() []gen.Node {
 		return []gen.Node{&gen.NExtends{Tpl: &gen.EStr{S: "base"}}, &gen.NUse{Tpl: &gen.EStr{S: "ublk"}, Aliases: [][2]string{{"u1", "used"}}}, &gen.NBlock{Name: "bb", Body: []gen.Node{tx("x")}}}
 	}})
+	// an embed whose body has text, prints and a comment outside its override blocks: never rendered, still source
+	p.units = append(p.units, c20unit{name: "embed-stray-content", nodes: func() []gen.Node {
+		return []gen.Node{tx("before "), &gen.NEmbed{Tpl: str("lay"), Stray: []gen.Node{tx("stray "), pr(&gen.EBin{Op: "~", L: nm("sv"), R: str("x")}), &gen.NComment{S: " c "}, pr(&gen.EFilter{X: nm("sw"), Name: "up"})},
+			Blocks: []*gen.NBlock{{Name: "eb", Body: []gen.Node{tx("over")}}}}, tx(" after")}
+	}})
 	for k := range p.units {
 		rec := &vecPolicy{all: -1}
 		gen.Source(&gen.Template{Body: p.units[k].nodes()}, rec)
